@@ -127,7 +127,16 @@ def main():
                 if not r["applies"]:
                     print("%-8s STALE-PATCH" % bid); bad += 1; continue
                 rows.append({"id": bid, "alarms": r["rules"], "properties": r["properties"]})
-                if r["properties"]:
+                try:
+                    disputed = json.load(open(os.path.join(d, "meta.json"))).get("not_benign_for", {})
+                except Exception:
+                    disputed = {}
+                if r["properties"] and set(r["properties"]) <= set(disputed.get("properties", [])):
+                    # the author's claim of "behaviour preserved" does not hold for the property as
+                    # written (reason in meta.json): the report is right, not a false alarm
+                    rows[-1]["not_benign_for"] = disputed
+                    print("%-8s reported, rightly (%s)" % (bid, ", ".join(r["properties"])))
+                elif r["properties"]:
                     alarms.append(bid)
                     print("%-8s FALSE-ALARM %s %s" % (bid, r["properties"], r["rules"]))
                     for f in r["fired"][:8]:
